@@ -276,47 +276,45 @@ def _window_fields(w):
     size = getattr(w, "_size", _MISSING)
     if idx is _MISSING or bf is _MISSING or size is _MISSING:
         return None
-    if idx is not None and not (isinstance(idx, int) and isinstance(bf, int) and isinstance(size, int)):
-        return None
     return idx, bf, size
 
 
-def bitfield_within_size(self):
+def _broken(self):
+    """None if the invariant holds, else (which, detail). Evaluated after every public method."""
     f = _window_fields(self)
     if f is None:
         INV["unreachable"] += 1
-        return True
+        return None
     INV["evaluations"] += 1
     idx, bf, size = f
-    if idx is None:
-        return True
-    return 0 <= bf < (1 << size)
-
-
-def bitfield_error(self):
-    f = _window_fields(self)
-    return WindowInvariantBroken("bitfield-out-of-range", "index=%r bitfield=%r size=%r" % f)
-
-
-def index_never_decreases(self):
-    f = _window_fields(self)
-    if f is None:
+    if idx is None:  # not initialised (yet)
+        return None
+    try:
+        if not 0 <= bf < (1 << size):
+            return ("bitfield-out-of-range", "index=%r bitfield=%r size=%r" % f)
+        d = self.__dict__
+        last = d.get("_verif_last_index")
+        if last is not None and idx < last:
+            return ("index-decreased", "index=%r after %r (bitfield=%r size=%r)" % (idx, last, bf, size))
+        d["_verif_last_index"] = idx
+    except TypeError:  # fields of another type than assumed: monitor unreachable, not an alarm
+        INV["evaluations"] -= 1
         INV["unreachable"] += 1
-        return True
-    INV["evaluations"] += 1
-    idx = f[0]
-    if idx is None:
-        return True
-    last = self.__dict__.get("_verif_last_index")
-    ok = last is None or idx >= last
-    if ok:
-        self.__dict__["_verif_last_index"] = idx
-    return ok
+    return None
 
 
-def index_error(self):
-    f = _window_fields(self)
-    return WindowInvariantBroken("index-decreased", "index=%r after %r (bitfield=%r size=%r)" % (f[0], self.__dict__.get("_verif_last_index"), f[1], f[2]))
+def window_invariant_holds(self):
+    """Since first initialisation `_index` never decreases and 0 <= `_bitfield` < 2**`_size`."""
+    b = _broken(self)
+    if b is not None:
+        self.__dict__["_verif_broken"] = b
+        return False
+    return True
+
+
+def window_invariant_error(self):
+    which, detail = self.__dict__.get("_verif_broken") or ("unknown", "")
+    return WindowInvariantBroken(which, detail)
 
 
 def install_window_invariant():
@@ -328,8 +326,7 @@ def install_window_invariant():
     try:
         import icontract
 
-        icontract.invariant(bitfield_within_size, error=bitfield_error)(cls)
-        icontract.invariant(index_never_decreases, error=index_error)(cls)
+        icontract.invariant(window_invariant_holds, error=window_invariant_error)(cls)
         INV["mechanism"] = "icontract"
     except ImportError:
         import functools
@@ -338,10 +335,8 @@ def install_window_invariant():
             @functools.wraps(fn)
             def inner(self, *a, **kw):
                 r = fn(self, *a, **kw)
-                if not bitfield_within_size(self):
-                    raise bitfield_error(self)
-                if not index_never_decreases(self):
-                    raise index_error(self)
+                if not window_invariant_holds(self):
+                    raise window_invariant_error(self)
                 return r
 
             return inner
